@@ -18,14 +18,18 @@ EmitKinds == {"class", "function", "argparse", "pydantic", "json_schema", "sqlal
 ModSet(levels) == {Mods[k] : k \in 1..levels}
 \* expose = "top": `-m pkg` (filters name modules "a" / "g");  expose = "sub": `-m pkg.sub` (a dotted module: levels >= 2), where
 \* the filters name the exposed package itself ("self") -- the blacklist wins over the whitelist
-Opts == {o \in [levels : 1..3, emit : EmitKinds, recursive : BOOLEAN, black : SUBSET {"a", "g", "self"}, white : SUBSET {"a", "g", "self"},
-               dry : BOOLEAN, out_exists : BOOLEAN, expose : {"top", "sub"}, prior : BOOLEAN] :
-           /\ Cardinality(o.black) <= 1 /\ Cardinality(o.white) <= 1
+\* Below the exposed package every package is known to the filters as `<root>.<leaf>`: "self" = `pkg.sub`, "deep" = `pkg.<name of the
+\* sub-sub-package>`.  deepname: that package is called `deep`, or its name BEGINS WITH the root package's name (`pkg_ext`).
+AtMostOne(S) == {{}} \cup {{x} : x \in S}
+Opts == {o \in [levels : 1..3, emit : EmitKinds, recursive : BOOLEAN, black : AtMostOne({"a", "g", "self", "deep"}), white : AtMostOne({"a", "g", "self"}),
+               dry : BOOLEAN, out_exists : BOOLEAN, expose : {"top", "sub"}, prior : BOOLEAN, deepname : {"deep", "rootish"}] :
            \* prior: an earlier REAL run of the same command has already populated the output directory (a history: dry runs only)
            /\ (o.prior => o.dry /\ o.out_exists)
            /\ (o.expose = "top" => /\ o.black \subseteq ModSet(o.levels) /\ o.white \subseteq ModSet(o.levels)
                                     /\ (o.black = {} \/ o.white = {}))                  \* one of the two filters at a time
-           /\ (o.expose = "sub" => /\ o.levels >= 2 /\ o.black \subseteq {"self"} /\ o.white \subseteq {"self"}
+           /\ (o.deepname = "rootish" => o.expose = "sub" /\ o.levels = 3 /\ o.recursive)
+           /\ ("deep" \in o.black => o.expose = "sub" /\ o.levels = 3 /\ o.recursive /\ o.white = {})
+           /\ (o.expose = "sub" => /\ o.levels >= 2 /\ o.black \subseteq {"self", "deep"} /\ o.white \subseteq {"self"}
                                     /\ o.emit \in {"class", "function", "sqlalchemy"})}
 
 Walked(o) == IF o.expose = "top" THEN {m \in ModSet(o.levels) : o.recursive \/ LevelOf(m) = 1}
@@ -33,11 +37,11 @@ Walked(o) == IF o.expose = "top" THEN {m \in ModSet(o.levels) : o.recursive \/ L
 \* for a dotted exposed package the filters act on the package: its own module g is excluded when the package is blacklisted
 \* (the blacklist wins); the sub-package's module d is excluded when a whitelist is given that does not name it
 Included(o) == IF o.expose = "top" THEN {m \in Walked(o) : m \notin o.black /\ (o.white = {} \/ m \in o.white)}
-               ELSE {m \in Walked(o) : IF m = "g" THEN "self" \notin o.black ELSE o.white = {}}
+               ELSE {m \in Walked(o) : IF m = "g" THEN "self" \notin o.black ELSE (o.white = {} /\ "deep" \notin o.black)}
 \* the modules whose silence is demanded (for a blacklisted dotted package the statement does not say whether its sub-packages
 \* go too: d is judged only under a whitelist)
 Excluded(o) == IF o.expose = "top" THEN ModSet(o.levels) \ Included(o)
-               ELSE (IF "self" \in o.black THEN {"g"} ELSE {}) \cup (IF o.white # {} /\ o.levels = 3 THEN {"d"} ELSE {})
+               ELSE (IF "self" \in o.black THEN {"g"} ELSE {}) \cup (IF (o.white # {} \/ "deep" \in o.black) /\ o.levels = 3 THEN {"d"} ELSE {})
 
 Src(o) == {<<"src", m>> : m \in ModSet(o.levels)}
 Unjudged(o) == IF o.expose = "sub" THEN {<<"out", m>> : m \in ModSet(o.levels)} ELSE {}
@@ -55,7 +59,9 @@ SE == INSTANCE SequencesExt
 OptSeq == SE!SetToSeq(Opts)
 RealRun(x) == {<<"out", "">>} \cup (IF FilterIgnored(x) THEN {<<"out", m>> : m \in Walked(x)} \cup {<<"out", "__init__">>} ELSE Gen(x))
 Before == Src(o) \cup (IF o.prior THEN RealRun(o) ELSE IF o.out_exists THEN {<<"out", "">>} ELSE {})
-Init == /\ o \in {OptSeq[k] : k \in {j \in 1..Len(OptSeq) : j % NShards = Shard}}
+\* (the sequence is handed over as an ARGUMENT: TLC evaluates an argument once, a definition indexed inside a set constructor every time)
+ShardOf(seq) == {seq[k] : k \in {j \in 1..Len(seq) : j % NShards = Shard}}
+Init == /\ o \in ShardOf(OptSeq)
         /\ fs = Before
         /\ pc = "start"
 Run == /\ pc = "start"
@@ -75,7 +81,7 @@ AllFourOrDeviation == pc = "done" => (AllFour \/ Fired(o) # {})
 RECURSIVE SetToSeq(_)
 SetToSeq(S) == IF S = {} THEN <<>> ELSE LET x == CHOOSE x \in S : TRUE IN <<x>> \o SetToSeq(S \ {x})
 Dump == pc = "done" => PrintT(ToJson([o |-> [levels |-> o.levels, emit |-> o.emit, recursive |-> o.recursive, dry |-> o.dry,
-                                             expose |-> o.expose, out_exists |-> o.out_exists, prior |-> o.prior, black |-> SetToSeq(o.black), white |-> SetToSeq(o.white)],
+                                             expose |-> o.expose, out_exists |-> o.out_exists, prior |-> o.prior, deepname |-> o.deepname, black |-> SetToSeq(o.black), white |-> SetToSeq(o.white)],
                                       included |-> SetToSeq(Included(o)), excluded |-> SetToSeq(Excluded(o)),
                                       devs |-> SetToSeq(Fired(o))]))
 =====================================================================================
